@@ -62,7 +62,8 @@ def co_coarsen(case, ctx):
         if cols != ["count"] or agg:
             for c, f in zip(cols, case["aggs"]):
                 # dtype and aggregate in one field specifier, in either order
-                spec = {0: f"{c}:agg={f}", 1: f"{c}:dtype=int64,agg={f}", 2: f"{c}:agg={f},dtype=int64"}[case.get("fieldstyle", 0)]
+                spec = {0: f"{c}:agg={f}", 1: f"{c}:dtype=int64,agg={f}", 2: f"{c}:agg={f},dtype=int64",
+                        3: c if f == "sum" else f"{c}:agg={f}"}[case.get("fieldstyle", 0)]       # 3: bare name where the default applies
                 args += ["--field", spec]
         res = CliRunner().invoke(cli, args)
         if res.exit_code != 0:
